@@ -267,6 +267,21 @@ P('C01',
   thorough=dict(cases=20000000, max_size=6000, max_seconds=1800, fuzz=dict(seconds=600, jobs=16, max_len=6000)),
   )
 
+P('C16',
+  technique='property-based testing: pages from the real decoder (Level 1-3.5 incl. objects and DRCS, caption), differential over the four export targets, exactly sized heap buffers and guard bytes, independent text extraction for vbi_print_page_region, guard pixels and full-page comparison for region rendering',
+  rule='page = Teletext page fetched at level 1 / 1.5 / 2.5 / 3.5 from a decoder fed with rows of the C02 grammar or a Level 2.5 neighbourhood (MOT, POP objects, DRCS), or a caption page; then 1-3 of: '
+       '(A) an enumerated export module with a random option vector to vbi_export_alloc, vbi_export_mem (buffer sizes 0 / 1 / needed-1 / needed / needed+1 / random), vbi_export_stdio, vbi_export_file; '
+       '(B) vbi_print_page_region in table mode (random region, UTF-8 / ISO-8859-1 / ASCII, random buffer size); (C) vbi_draw_vt_page_region / vbi_draw_cc_page_region of a random region into a guarded '
+       'canvas (random stride, RGBA32 / PAL8 / unsupported formats). Non-trivial: buffer size needed-1 or needed, or a region edge at an enlarged character, or a page with enhancement / DRCS data; distinct = hash of consumed choices.',
+  level_text='Generated-input search with explicit oracles: the four export targets must agree in success and bytes, vbi_export_mem must return the needed size for every buffer size and never write past an exactly '
+             'sized heap buffer (ASan); vbi_print_page_region output converted back with iconv must equal the characters computed independently from pg->text (graphics, DRCS, covered cells and unrepresentable '
+             'characters as spaces), return value <= size; region rendering must leave every guard pixel and, for unsupported formats, every pixel untouched and equal the full-page rendering for regions that cut no enlarged character. Sampling only.',
+  level_note='Trusted: glibc iconv for the back conversion; the replacement rules of vbi_print_page_region as documented (graphics, DRCS and unrepresentable characters -> space). Non-table mode and the text exporter\'s terminal control codes are only covered by the target differential.',
+  design_ref='DESIGN.md section 2, C16',
+  quick=dict(cases=160000, max_size=3000, max_seconds=120),
+  thorough=dict(cases=4000000, max_size=3000, max_seconds=1500, fuzz=dict(seconds=240, jobs=8, max_len=3000)),
+  )
+
 NOT_YET = {}
 
 
